@@ -204,6 +204,25 @@ def _net_sig(case: dict, i: int, impl: List[str], model: List[str]) -> dict:
     return {"kind": "model-vs-impl", "rig": "net", "op": op, "what": what, "routers": case.get("notes", {}).get("routers")}
 
 
+def _run_air_many(ctx: Ctx):
+    """more than two access points on one air space frequency: OUTSIDE the Lean model (one peer per interface); the property's own oracle
+    (a)-(d) on the real objects, as a search for a failing input — never counted as a validated model trace."""
+    rng = ctx.rng.fork("air-many")
+    for k in [3, 4, 3, 5][: ctx.scale(3, 4)] * ctx.scale(1, 6):
+        case = rnet.gen_air_many(rng, k)
+        impl, records = rnet.run_impl(case)
+        ctx.count(f"air-many(impl-only):aps={k}:routing={case['notes']['routing']}")
+        for r in records:
+            if r["op"]["op"] == "ping":
+                ctx.count(f"air-many(impl-only):ping:{r['res']}")
+                ctx.count("air-many(impl-only):bystander-receives", sum(1 for e in r["raw"] if e[0] == "rx") - sum(1 for e in r["raw"] if e[0] in ("hop", "sw")))
+        bad = rnet.oracle(case, records)
+        if bad:
+            kk = bad["op"]
+            small = dict(case, ops=case["ops"][:kk + 1]) if kk < len(case["ops"]) else case
+            ctx.violation({"kind": "net-oracle", "defect": bad["kind"], "family": "air-many"}, bad["what"], {"rig": "air-many", "case": small})
+
+
 def _run_net(ctx: Ctx):
     cases = []
     for f in sorted((VERIF / "corpus" / "C08").glob("net_*.json")):
@@ -408,6 +427,9 @@ def replay(rec: dict) -> bool:
         impl = rroute.run_impl_float(case)
         model = run_driver(EXE, rroute.float_model_lines(case))
         return impl == model and rroute.float_oracle(case, impl) is None
+    if r.get("rig") == "air-many":
+        _, records = rnet.run_impl(case)
+        return rnet.oracle(case, records) is None
     if r.get("rig") == "app":
         ok, impl, model, i, records = _app_diff(case)
         return ok and rnet.oracle(dict(case, consistent=case["app"]["mode"] == "all"), records) is None
@@ -429,4 +451,5 @@ def run(ctx: Ctx):
                        "canonical JSON of the case")
     _run_route(ctx)
     _run_net(ctx)
+    _run_air_many(ctx)
     _run_apps(ctx)
